@@ -49,8 +49,13 @@ fn check_pattern_exhaustiveness_item(statics: &mut StaticsContext, stmt: &Item) 
                 }
             }
         }
-        // default values of variant fields are not type checked
-        ItemKind::TypeDef(TypeDefKind::Enum(..)) => {}
+        ItemKind::TypeDef(TypeDefKind::Enum(enum_def)) => {
+            for field in enum_def.variants.iter().flat_map(|v| v.fields.iter()) {
+                if let Some(default_val) = &field.default_val {
+                    check_pattern_exhaustiveness_expr(statics, default_val);
+                }
+            }
+        }
         ItemKind::FuncDecl(f) => {
             for arg in &f.args {
                 if let Some(default_arg) = &arg.default_val {
